@@ -17,8 +17,8 @@ import (
 
 // Config is one model-checked configuration.
 type Config struct {
-	End       string `json:"end"`        // done | loop | assert | errorlabel | reserr-body | reserr-precommit
-	Mix       string `json:"mix"`        // plain | closeerr | incmap | hashmap | nested
+	End       string `json:"end"`        // done | loop | assert | errorlabel | reserr-body | reserr-precommit | body-panic
+	Mix       string `json:"mix"`        // plain | closeerr | incmap | hashmap | nested | twopc | incmap-closeerr | hashmap-closeerr | sendchan
 	Stops     int    `json:"stops"`      // number of concurrent Stop callers
 	SecondRun bool   `json:"second_run"` // Run is called a second time after the first call returned
 	NoRun     bool   `json:"no_run"`     // Run is never called
@@ -92,6 +92,8 @@ func (c Config) Name() string {
 var errBoom = errors.New("verif: injected resource error")
 var errClose = errors.New("verif: injected Close error")
 var errNested = errors.New("verif: the nested archetype failed")
+
+const bodyPanicMsg = "verif: panic raised in the body of L.s1"
 
 const keyNestedLeftRunning = "nested/stopped-before-run-leaves-nested-archetypes-running"
 
@@ -296,6 +298,9 @@ func (w *world) mainArchetype() distsys.MPCalArchetype {
 			return fmt.Errorf("%w: the harness's assertion in L.s1", distsys.ErrAssertionFailed)
 		case "errorlabel":
 			return iface.Goto("L.Error")
+		case "body-panic":
+			w.faultFired = "body-panic"
+			panic(bodyPanicMsg) // as a TLA+ type error or an arithmetic overflow in generated code would
 		}
 		return iface.Goto("L.Done")
 	}}
@@ -360,6 +365,9 @@ func build(cfg Config, s *bubble.Sched) *world {
 
 	var r distsys.ArchetypeResource
 	switch cfg.Mix {
+	case "sendchan":
+		// a channel resource that cannot be rolled back once the section in flight has sent a value
+		r = w.logging("r", park, resources.NewSingleOutputChan(make(chan tla.Value, 64)))
 	case "plain", "closeerr", "closepanic":
 		r = w.logging("r", park, local(2))
 	case "twopc":
@@ -640,7 +648,11 @@ func (w *world) judge(evs []bubble.Event) *Failure {
 	if !w.runRet[0] {
 		return &Failure{"run-never-returns", "Run did not return"}
 	}
-	if w.runPanic[0] != "" {
+	bodyPanicked := w.faultFired == "body-panic"
+	if bodyPanicked && !strings.Contains(w.runPanic[0], bodyPanicMsg) {
+		return &Failure{"run-result", fmt.Sprintf("the body of a section panicked but Run did not let that panic out: it returned %v / panicked with %q", w.runErr[0], w.runPanic[0])}
+	}
+	if w.runPanic[0] != "" && !bodyPanicked {
 		return &Failure{"run-panics", "Run panicked: " + w.runPanic[0]}
 	}
 	started := false
@@ -681,9 +693,32 @@ func (w *world) judge(evs []bubble.Event) *Failure {
 	// (5) whatever ended the run - a Stop (label boundary) or an error (the section in flight is rolled back first) -
 	// no resource is closed with operations of an unfinished attempt ("Close will be called when the archetype stops
 	// running (as a result, it's not in the middle of a critical section)")
-	endedByStop := err == nil && seqOf("begin", "L.Done") == 0
+	endedByStop := err == nil && seqOf("begin", "L.Done") == 0 && !bodyPanicked
 	{
 		pending := map[string]int{}
+		// ground truth: the rollback reached the SingleOutputChan after it had sent in the section in flight (its
+		// Abort panics then, by contract)
+		cutShort := false
+		if cfg.Mix == "sendchan" {
+			sent := 0
+			for _, e := range evs {
+				if e.Who != "R" || e.Res != "r" {
+					continue
+				}
+				switch e.Op {
+				case "write":
+					if e.Err == "" {
+						sent++
+					}
+				case "commit":
+					sent = 0
+				case "abort":
+					if sent > 0 {
+						cutShort = true
+					}
+				}
+			}
+		}
 		for _, e := range evs {
 			if e.Who != "R" || e.Seq > run1Ret {
 				continue
@@ -699,11 +734,20 @@ func (w *world) judge(evs []bubble.Event) *Failure {
 				if pending[e.Res] > 0 && endedByStop {
 					return &Failure{"stop-not-at-label-boundary", fmt.Sprintf("Run returned nil after a Stop but resource %s was closed in the middle of a critical section (%d operations neither committed nor aborted)", e.Res, pending[e.Res])}
 				}
+				if pending[e.Res] > 0 && cutShort {
+					// the best-effort rollback was cut short by a resource whose Abort panics (SingleOutputChan after a
+					// send): which of the other resources were rolled back before that depends on Go's map order in
+					// MPCalContext.abort, so it is not judged here
+					continue
+				}
 				if pending[e.Res] > 0 {
 					return &Failure{"closed-mid-section", fmt.Sprintf("the run ended with %v and resource %s was closed in the middle of the critical section in flight (%d operations neither committed nor aborted)", err, e.Res, pending[e.Res])}
 				}
 			}
 		}
+	}
+	if bodyPanicked {
+		return nil // the panic went out of Run (checked above); there is no returned error to classify
 	}
 	// (6) Run's result tells the ways of ending apart
 	isA, isF, isB, isC := errors.Is(err, distsys.ErrAssertionFailed), errors.Is(err, distsys.ErrProcedureFallthrough), errors.Is(err, errBoom), errors.Is(err, errClose)
